@@ -446,7 +446,7 @@ struct type *typecommonreal(struct type *, unsigned, struct type *, unsigned);
 struct type *typepromote(struct type *, unsigned);
 struct type *typeadjust(struct type *, enum typequal *);
 enum typeprop typeprop(struct type *);
-struct member *typemember(struct type *, const char *, unsigned long long *);
+struct member *typemember(struct type *, const char *, unsigned long long *, enum typequal *);
 bool typehasint(struct type *, unsigned long long, bool);
 
 extern struct type typevoid;
